@@ -15,6 +15,28 @@ ENVS = [
     ["N" * 63 + "=v63", "N" * 63 + "X=v64", "M" * 200 + "=v200", "A=1"],   # long names (no fixed-size name buffer may truncate them)
 ]
 
+def alloc_histories(ck):
+    """zix_expand_environment_strings under an allocation oracle (used by C07 and C08): the same call with chosen requests
+    refused (every single index, pairs, "from k on"); result and allocator event log are compared with Model/EnvAlloc.lean."""
+    extra = ["$A", "a$A", "ab$A!", "$A$AB", "x$Ay", "~", "~/x", "a:~:b", "a~/b", "$", "${A}", "$_", "~:~", "/usr/$A/$AB/~/x", "$ABC", "$HOME/~", "$A~/", "$A=b", "$" + "N" * 63]
+    astr = ["", "a", "$A", "a$A", "a$Ab", "$A$AB", "~", "~/x", "x:~:$AB/$A-$_", "/usr/$A/$AB/~/x", "$ABC", "a$ABC$A", "$HOME/~", "abc", "$A~"] + \
+           [ck.rng.choice(extra) + ck.rng.choice(extra) for _ in range(40 if ck.tier == "quick" else 400)]
+    ah = []
+    for ei, env in enumerate(ENVS[:3] + [None]):
+        head = "envnull" if env is None else "env " + " ".join(hx(e) for e in env)
+        h = [head]
+        for s in astr:
+            h.append("expanda - " + hx(s))
+            for k in range(0, 9): h.append("expanda %d %s" % (k, hx(s)))
+            h.append("expanda 1,2 " + hx(s)); h.append("expanda 0,3 " + hx(s)); h.append("expanda 2,3,4,5,6,7,8,9,10,11,12 " + hx(s))
+        ah.append(h)
+        for l in h[1:]: ck.count_distinct(("expanda", ei, l))
+    return ah
+
+def build_harness(ck):
+    return ck.cc("h_c16", ["h_c16.c", os.path.join(REPO, "src/posix/environment_posix.c"), os.path.join(REPO, "src/allocator.c"),
+                           os.path.join(REPO, "src/string_view.c")])
+
 def run(ck):
     ck.level = "proof"
     ck.cov["rule"] = ("every string over {$ ~ A _ a / : { }} up to length 5 (quick) / 7 (thorough) plus '1'-containing and seeded random longer strings, "
